@@ -363,6 +363,11 @@ func gated(ctx *core.Ctx, bin string, caseNo int, withRename bool) {
 	}
 	defer ctl.Close()
 	ctl.Timeout = 30 * time.Second
+	// every collection holds an array document, so that the position-addressed edits below
+	// (append, delete the first element) are never no-ops
+	for _, k := range data.keys {
+		c.Do("SET", k, "jarr", "STRING", `{"list":[1,2,3,4,5,6,7,8,9,10,11,12]}`)
+	}
 	if rep, err := c.Do("AOFSHRINK"); err != nil || rep.IsErr() {
 		ctx.Inconclusive("AOFSHRINK failed")
 		return
